@@ -130,7 +130,10 @@ struct Gen {
             if (tasks_in_program && camp != "C04" && strcmp(nm, "start") && strcmp(nm, "resume")) nm = "start";
             // ... and a stop callback (which also runs at teardown) starts nothing: a module started then would launch its tasks and be stopped under them
             if (tasks_in_program && camp != "C04" && where.find(".stop.") != std::string::npos) { p.add(where, "query", {rmod(), (long)r.below(4)}); break; }
-            p.add(where, nm, {rmod()});
+            long target = rmod();
+            p.add(where, nm, {target});
+            // C13: settings left over from before a stop must not matter: a (re)started module is told once more that it does not batch
+            if (camp == "C13" && !strcmp(nm, "start") && r.chance(0.3)) p.add(where, r.chance(0.5) ? "batch_size" : "batch_timeout", {target, 0});
             break;
         }
         case REG: {
